@@ -231,7 +231,9 @@ void br_darwin_rx(br_darwin *d, void *frame, size_t len) {
     if (d->call_parse_frame) {
         parseFrame(frame, d->ctx);
     }
-    darwin_tick(d);
+    if (!d->skip_trailing_tick) {
+        darwin_tick(d);
+    }
 }
 
 void br_linux_rx(void *mapping, void *session, void *frame, void *ctx) {
